@@ -2,6 +2,7 @@ package worlds
 
 import (
 	"fmt"
+	"strings"
 	"testing"
 
 	"verif/sim/h"
@@ -34,6 +35,13 @@ func genC02(r *h.Rng, tier string, idx int) *h.Plan {
 		p.Cfg["id_inject"] = true
 	}
 	ids := []string{"f1", "f2", "f3", "f4", "f5", "f6"}
+	if limit == 0 && r.P(1, 4) {
+		// unusual but legal ids: "ids supplied by the caller are kept"
+		// (not together with the tiny term limit of some runs: under it the indexed
+		// state cannot even look for the dependents of an id that long)
+		ids = []string{"!note 1", "a b", "\u00fcn\u00ef\u4e2d", "x.y", "007", "!", strings.Repeat("long-", 60), "?q"}
+		p.Cfg["mode3"] = "oddids"
+	}
 	p.Cfg["ids"] = toIface(ids)
 	p.Cfg["locs"] = toIface([]string{"L"})
 	depth := 2
